@@ -214,10 +214,14 @@ def build_world(root, world):
     """world = {"files": {rel: str | {"text"|"b64", "mode"} | {"symlink": target} | {"dir": true}}}"""
     os.makedirs(root)
     files = world["files"]
+    hard = []
     for rel in sorted(files):
         spec = files[rel]
         p = os.path.join(root, rel)
         os.makedirs(os.path.dirname(p), exist_ok=True)
+        if isinstance(spec, dict) and "hardlink" in spec:
+            hard.append((p, os.path.join(root, spec["hardlink"])))
+            continue
         if isinstance(spec, dict) and "symlink" in spec:
             os.symlink(spec["symlink"], p)
             continue
@@ -228,6 +232,8 @@ def build_world(root, world):
             f.write(file_bytes(spec))
         if isinstance(spec, dict) and "mode" in spec:
             os.chmod(p, spec["mode"])
+    for p, target in hard:
+        os.link(target, p)  # a second name for the same inode
     for dp, dns, fns in os.walk(root):
         for n in fns + dns:
             p = os.path.join(dp, n)
